@@ -75,7 +75,7 @@ def main():
         ],
         "checks": checks,
         "not_applicable": na,
-        "notes": "fix: commits in /repo: 83305e8 (IntSBorrow), ac05f01 (signed multiplication overflow flag); see known_findings.txt and DESIGN.md section 7.",
+        "notes": "fix: commits in /repo: 83305e8 (IntSBorrow), ac05f01 (signed multiplication overflow flag), 7da668d (string read at adjacent segments); see known_findings.txt and DESIGN.md section 7.",
     }
     json.dump(m, open(os.path.join(VERIF, "MANIFEST.json"), "w"), indent=1)
     print("MANIFEST.json: %d checks, %d not applicable" % (len(checks), len(na)))
